@@ -476,6 +476,8 @@ func genService(r *rand.Rand, emit func(core.Case), n int, g qGen, kind string) 
 		h := int64(1 + r.Intn(3))
 		nb := 2 + r.Intn(5)
 		ctr := 0
+		big := c%12 == 3 // a few cases per run
+		bigAt := r.Intn(nb)
 		for b := 0; b < nb; b++ {
 			nt := r.Intn(4)
 			items := make([]txItem, nt)
@@ -500,7 +502,28 @@ func genService(r *rand.Rand, emit func(core.Case), n int, g qGen, kind string) 
 				}
 				featHist["service-block-rejected"]++
 			}
-			ops = append(ops, fmt.Sprintf("svcblock height=%d begin=%s end=%s txs=%s", h, encTxEvents(be), encTxEvents(ee), encTxs(items)))
+			if big && b == bigAt {
+				// events pile up: the indexer is still writing this (small) block while the next one, with
+				// more than a thousand txs, is published
+				ops = append(ops, fmt.Sprintf("svcblock height=%d begin=%s end=%s txs=%s wait=0 slow=150", h, encTxEvents(be), encTxEvents(ee), encTxs(items)))
+				h++
+				nbig := 1001 + r.Intn(150)
+				bigItems := make([]txItem, nbig)
+				for i := range bigItems {
+					ctr++
+					bigItems[i] = txItem{Tx: []byte(fmt.Sprintf("stx-%d-%d", c, ctr))}
+					if r.Intn(50) == 0 {
+						bigItems[i].Events = g.txEvents(r)
+					}
+					if i == 0 || i == nbig-1 || i == 1000 || r.Intn(120) == 0 {
+						hashes = append(hashes, txHash(bigItems[i].Tx))
+					}
+				}
+				ops = append(ops, fmt.Sprintf("svcblock height=%d begin=- end=- txs=%s", h, encTxs(bigItems)))
+				featHist["service-pile-up-block"]++
+			} else {
+				ops = append(ops, fmt.Sprintf("svcblock height=%d begin=%s end=%s txs=%s", h, encTxEvents(be), encTxEvents(ee), encTxs(items)))
+			}
 			ops = append(ops, fmt.Sprintf("bhas height=%d", h))
 			if r.Intn(2) == 0 {
 				ops = append(ops, fmt.Sprintf("search q=%s ast=%s", hx(fmt.Sprintf("tx.height = %d", h)), encAst([]cond{{Key: "tx.height", Op: "eq", Kind: 'i', S: fmt.Sprint(h)}})))
@@ -521,6 +544,108 @@ func genService(r *rand.Rand, emit func(core.Case), n int, g qGen, kind string) 
 	}
 }
 
+// ---- range stream: decimal values of differing digit counts, one- and two-sided ranges ----
+
+var rangeVals = []string{"0", "1", "2", "5", "7", "9", "10", "11", "20", "25", "42", "50", "99", "100", "105", "250", "999", "1000", "1234", "5000", "9999"}
+
+func rangeQuery(r *rand.Rand, heightKey string) []cond {
+	keys := []string{"acc.n", "acc.m", heightKey, heightKey}
+	bound := func(k string) string {
+		if k == heightKey && r.Intn(3) != 0 {
+			return pick(r, []string{"1", "2", "5", "9", "10", "11", "15", "20", "25", "99", "100", "101", "120"})
+		}
+		return pick(r, rangeVals)
+	}
+	var ast []cond
+	used := map[string]bool{}
+	n := 1 + r.Intn(3)
+	for i := 0; i < n; i++ {
+		k := pick(r, keys)
+		if used[k] {
+			continue
+		}
+		used[k] = true
+		switch r.Intn(4) {
+		case 0:
+			ast = append(ast, cond{Key: k, Op: pick(r, []string{"gt", "ge"}), Kind: 'i', S: bound(k)})
+		case 1:
+			ast = append(ast, cond{Key: k, Op: pick(r, []string{"lt", "le"}), Kind: 'i', S: bound(k)})
+		default: // both bounds, in either order, sometimes with another key's condition in between
+			lo := cond{Key: k, Op: pick(r, []string{"gt", "ge"}), Kind: 'i', S: bound(k)}
+			hi := cond{Key: k, Op: pick(r, []string{"lt", "le"}), Kind: 'i', S: bound(k)}
+			featHist["range-two-sided"]++
+			if r.Intn(2) == 0 {
+				lo, hi = hi, lo
+			}
+			ast = append(ast, lo)
+			if r.Intn(4) == 0 {
+				ast = append(ast, cond{Key: "a.b", Op: "ex", Kind: 'n'})
+			}
+			ast = append(ast, hi)
+		}
+	}
+	return ast
+}
+
+func rangeEvents(r *rand.Rand) []abci.Event {
+	var evs []abci.Event
+	for _, k := range []string{"n", "m"} {
+		if r.Intn(5) != 0 { // one value per key and item: merging a key's bounds is then exact
+			evs = append(evs, abci.Event{Type: "acc", Attributes: []abci.EventAttribute{{Key: []byte(k), Value: []byte(pick(r, rangeVals)), Index: true}}})
+		}
+	}
+	if r.Intn(2) == 0 {
+		evs = append(evs, abci.Event{Type: "a", Attributes: []abci.EventAttribute{{Key: []byte("b"), Value: []byte(pick(r, []string{"x", "abc"})), Index: true}}})
+	}
+	return evs
+}
+
+func genRange(r *rand.Rand, emit func(core.Case), n int) {
+	for c := 0; c < n; c++ {
+		var ops []string
+		block := r.Intn(3) == 0
+		h := int64(1 + r.Intn(12))
+		if r.Intn(4) == 0 {
+			h = int64(95 + r.Intn(8))
+		}
+		nb := 4 + r.Intn(8)
+		ctr := 0
+		for b := 0; b < nb; b++ {
+			if block {
+				ops = append(ops, fmt.Sprintf("bindex height=%d begin=%s end=%s", h, encTxEvents(rangeEvents(r)), encTxEvents(nil)))
+			} else {
+				items := make([]txItem, 1+r.Intn(3))
+				for i := range items {
+					ctr++
+					items[i] = txItem{Tx: []byte(fmt.Sprintf("rtx-%d-%d", c, ctr)), Events: rangeEvents(r)}
+				}
+				ops = append(ops, fmt.Sprintf("addbatch height=%d txs=%s", h, encTxs(items)))
+			}
+			h += int64(1 + r.Intn(3))
+			if b >= 2 && r.Intn(2) == 0 {
+				ops = append(ops, rangeOp(r, block))
+			}
+		}
+		for s := 0; s < 6; s++ {
+			ops = append(ops, rangeOp(r, block))
+		}
+		kind := "range-tx"
+		if block {
+			kind = "range-block"
+		}
+		emit(core.Case{Kind: kind, Ops: ops})
+	}
+}
+
+func rangeOp(r *rand.Rand, block bool) string {
+	name, hk := "search", "tx.height"
+	if block {
+		name, hk = "bsearch", "block.height"
+	}
+	ast := rangeQuery(r, hk)
+	return fmt.Sprintf("%s q=%s ast=%s", name, hx(render(ast, r)), encAst(ast))
+}
+
 func gen(r *rand.Rand, tier string, emit func(core.Case)) {
 	n := 150
 	if tier == "thorough" {
@@ -534,6 +659,7 @@ func gen(r *rand.Rand, tier string, emit func(core.Case)) {
 	genTxIndex(r, emit, n/5, idxClean, "txindex-clean", true)
 	genBlockIndex(r, emit, n/2, idxClean, "blockindex-clean")
 	genBlockIndex(r, emit, n/2, idxHostile, "blockindex-hostile")
+	genRange(r, emit, n)
 	genService(r, emit, n/2, idxClean, "service-clean")
 	genService(r, emit, n/3, idxHostile, "service-hostile")
 }
